@@ -188,11 +188,9 @@ class RootContextBuilder:
         module_name = derive_absolute_module_name(base, node.module, node.level)
         (confirmed_module_name, spec) = find_module_name_and_spec(module_name)
 
-        if spec is None:
+        # NOTE The nearest locatable parent is given when the module itself is missing
+        if spec is None or confirmed_module_name != module_name:
             error.error("unable to resolve relative starred import", culprit=node)
-
-        if (confirmed_module_name, spec) != (None, None):
-            assert module_name == confirmed_module_name  # should always pass
 
         self.context.add(
             make_import_symbol(
@@ -213,11 +211,9 @@ class RootContextBuilder:
         module_name = derive_absolute_module_name(base, node.module, node.level)
         (confirmed_module_name, spec) = find_module_name_and_spec(module_name)
 
-        if spec is None:
+        # NOTE The nearest locatable parent is given when the module itself is missing
+        if spec is None or confirmed_module_name != module_name:
             error.error("unable to resolve relative import", culprit=node)
-
-        if (confirmed_module_name, spec) != (None, None):
-            assert module_name == confirmed_module_name  # should always pass
 
         self.context.add(
             make_import_symbol(
